@@ -76,4 +76,108 @@ def validPartition (b : Blocks) (bg : List Nat) (strict : Bool) (c p : Circ) (k 
   else if !p.invB then some "inv"                                            -- (5)
   else none
 
+/-! ## QuickSpec — the emission machine abstracting `QuickPartitioner.run`
+
+The input is the operation list `l` in the circuit's iteration order, every operation
+tagged with its position.  The state holds the not yet emitted operations `rem` (still
+in input order) and the groups emitted so far, `out` (in emission order).  Moves:
+
+* `emit tags blk` — a bin is placed on the output (`process_pending_bins`): the group is
+  the remaining operations whose tag is in `tags`, in input order (`get_slice` sorts by
+  cycle).  Legal iff the group is non-empty and *closed*: every remaining operation
+  before a group member that shares a qudit with it is in the group too (this is what
+  "all starts sit on the dividing line" has to guarantee).  `blk = false` is a
+  `BarrierBin`: exactly one barrier-like operation, emitted bare; `blk = true`: no
+  barrier-like operation, width at most `max k (widest member)`.
+* `lift j m` — a previously placed group that is a *rear* operation of the output is taken
+  out (`partitioned_circuit.pop(p)`) and put in front of the `m` groups already taken out
+  for the bin being placed; legal iff no group it jumps over shares a qudit with it …
+* `fuse` — … and merged with the group placed next (the "merge previously placed
+  blocks" loop): the last two groups, both blocks, become one (contents concatenated).
+
+How bins are chosen, closed and blocked (`can_accommodate`, `blocked_qudits`,
+`dividing_line`) is heuristic and deliberately not part of the machine: the harness
+records what the real pass did and the driver checks every recorded move is legal.
+`Props/C08.lean` proves that every run that empties `rem` preserves every timeline. -/
+
+structure TOp where
+  tag : Nat
+  op : Op
+deriving DecidableEq, Repr
+
+structure Group where
+  ops : List TOp
+  blk : Bool
+deriving DecidableEq, Repr
+
+structure QState where
+  rem : List TOp
+  out : List Group
+deriving DecidableEq, Repr
+
+inductive QMove
+  | emit (tags : List Nat) (blk : Bool)
+  | lift (j : Nat) (m : Nat)
+  | fuse
+deriving DecidableEq, Repr
+
+def tagOps : Nat → List Op → List TOp
+  | _, [] => []
+  | i, o :: os => ⟨i, o⟩ :: tagOps (i + 1) os
+
+def QState.init (l : List Op) : QState := ⟨tagOps 0 l, []⟩
+
+def Group.qudits (g : Group) : List Nat := dedupNat (g.ops.flatMap (·.op.loc))
+def groupWidthOk (k : Nat) (ops : List TOp) : Bool :=
+  (dedupNat (ops.flatMap (·.op.loc))).length ≤ max k (widest (ops.map (·.op)))
+
+/-- every element outside `tags` is disjoint from all later elements inside `tags` -/
+def closedIn (tags : List Nat) : List TOp → Bool
+  | [] => true
+  | x :: t =>
+    (tags.contains x.tag ||
+      t.all (fun y => !tags.contains y.tag || disjointL x.op.loc y.op.loc)) && closedIn tags t
+
+def groupDisjoint (g h : Group) : Bool :=
+  g.ops.all (fun x => h.ops.all (fun y => disjointL x.op.loc y.op.loc))
+
+/-- one move; `none` = illegal -/
+def qstep (bg : List Nat) (k : Nat) (s : QState) : QMove → Option QState
+  | .emit tags blk =>
+    let g := s.rem.filter (fun x => tags.contains x.tag)
+    let kindOk :=
+      if blk then g.all (fun x => !barrierLike bg x.op) && groupWidthOk k g
+      else match g with
+        | [x] => barrierLike bg x.op
+        | _ => false
+    if !g.isEmpty && closedIn tags s.rem && kindOk then
+      some ⟨s.rem.filter (fun x => !tags.contains x.tag), s.out ++ [⟨g, blk⟩]⟩
+    else none
+  | .lift j m =>
+    match s.out[j]? with
+    | none => none
+    | some r =>
+      let tail := s.out.drop (j + 1)
+      let keep := tail.length - m          -- the groups `r` jumps over
+      if decide (m ≤ tail.length) && (tail.take keep).all (fun h => groupDisjoint r h) then
+        some ⟨s.rem, s.out.take j ++ tail.take keep ++ r :: tail.drop keep⟩
+      else none
+  | .fuse =>
+    match s.out.reverse with
+    | r2 :: r1 :: rest =>
+      if r1.blk && r2.blk && groupWidthOk k (r1.ops ++ r2.ops) then
+        some ⟨s.rem, rest.reverse ++ [⟨r1.ops ++ r2.ops, true⟩]⟩
+      else none
+    | _ => none
+
+/-- run a list of moves; the index of the first illegal move on failure -/
+def qrun (bg : List Nat) (k : Nat) : QState → List QMove → Nat → Except Nat QState
+  | s, [], _ => .ok s
+  | s, m :: ms, i =>
+    match qstep bg k s m with
+    | some s' => qrun bg k s' ms (i + 1)
+    | none => .error i
+
+def outOps (s : QState) : List Op := s.out.flatMap (fun g => g.ops.map (·.op))
+
 end BqVerif.Partition
